@@ -179,6 +179,20 @@ def run(ctx: Ctx) -> None:
             if res.violated:
                 raise tlc.MachineryError(f"SyncDist.tla violates {res.violated} (max_retries={mr}, retry_for={rf})")
     ctx.note(f"TLC SyncDist.tla x 6 settings: {ctx.states} states: SyncEqualsDistributed, ExecutionCount hold for all scripts <= 3")
+    # the distributed retry machine inside the system model: two runners, an invocation that always asks for a retry
+    # and is waited for (claimable through the blocking scan without a queue message)
+    res = tlc.run_tlc("MC_Core", "MC_C19_retry.cfg", coverage=True, timeout=1800)
+    ctx.add_tlc(res)
+    if res.violated or not res.ok:
+        raise tlc.MachineryError(f"PynencCore (MC_C19_retry.cfg) violates {res.violated}")
+    if res.coverage.get("P_Blocking", (0, 0))[1] == 0:
+        raise tlc.MachineryError("vacuous: P_Blocking never taken in MC_C19_retry.cfg")
+    ctx.note(f"TLC MC_C19_retry.cfg: {res.states} states: AtMostMaxPlusOne (executions <= max_retries + 1) holds with the retry "
+             f"counted before RETRY is written")
+    res = tlc.run_tlc("MC_Core", "MC_C19_KF_retry_late.cfg", timeout=1800)
+    ctx.add_tlc(res)
+    ctx.note("TLC MC_C19_KF_retry_late.cfg (pinned order: RETRY, then the counter): counterexample of AtMostMaxPlusOne "
+             + ("found" if "AtMostMaxPlusOne" in res.violated else "NOT found"))
     rng = random.Random(ctx.seed)
     n = 48 if ctx.quick else 600
     jobs = []
